@@ -261,6 +261,14 @@ impl Cfg {
         let mut ranges = Vec::new();
         // push the previous nodes onto the queue
         queue.extend(node.prevs().clone());
+        #[cfg(feature = "rva_verif")]
+        crate::verif::order_tail_deque(
+            "first_store",
+            &mut queue,
+            node.prevs().len(),
+            node,
+            crate::verif::Kind::Prevs,
+        );
 
         // keep track of visited nodes
         #[allow(clippy::mutable_key_type)]
@@ -282,6 +290,14 @@ impl Cfg {
                 }
             }
             queue.extend(prev.prevs().clone().into_iter());
+            #[cfg(feature = "rva_verif")]
+            crate::verif::order_tail_deque(
+                "first_store",
+                &mut queue,
+                prev.prevs().len(),
+                &prev,
+                crate::verif::Kind::Prevs,
+            );
         }
         ranges
     }
@@ -294,6 +310,14 @@ impl Cfg {
         // push the next nodes onto the queue
 
         queue.extend(node.nexts().clone());
+        #[cfg(feature = "rva_verif")]
+        crate::verif::order_tail_deque(
+            "first_usage",
+            &mut queue,
+            node.nexts().len(),
+            node,
+            crate::verif::Kind::Nexts,
+        );
 
         // keep track of visited nodes
         #[allow(clippy::mutable_key_type)]
@@ -326,6 +350,14 @@ impl Cfg {
             }
 
             queue.extend(next.nexts().clone().into_iter());
+            #[cfg(feature = "rva_verif")]
+            crate::verif::order_tail_deque(
+                "first_usage",
+                &mut queue,
+                next.nexts().len(),
+                &next,
+                crate::verif::Kind::Nexts,
+            );
         }
         ranges
     }
